@@ -43,6 +43,8 @@ def run_cvc5(smt2, timeout_ms):
     exe = "/usr/bin/cvc5"
     if not os.path.exists(exe):
         return "unknown"
+    # z3 prints its internal total variants of nth; both mean seq.nth inside the bounds
+    smt2 = smt2.replace("(seq.nth_u ", "(seq.nth ").replace("(seq.nth_i ", "(seq.nth ")
     with tempfile.NamedTemporaryFile("w", suffix=".smt2", delete=False) as f:
         f.write("(set-logic ALL)\n" + smt2 + "\n(check-sat)\n")
         path = f.name
